@@ -206,6 +206,7 @@ let predict_engine gun entries obs =
   let words = split_blank obs in
   let field p = List.fold_left (fun acc w -> if starts p w then Some (after_prefix p w) else acc) None words in
   match field "err=", field "served=", field "n=" with
+  | Some "crash", _, _ -> ("err=nil", "BAD:the engine crashed while running the pool (panic on one of its goroutines)", true)
   | Some "hang", _, _ -> ("err=nil", "BAD:the pool run does not end (a Report blocks on an aggregator that has returned, or the await loop waits for ever)", true)
   | Some err, Some served, Some _ ->
       let served_l = if served = "-" then [] else
